@@ -34,7 +34,7 @@ ASSUMPTIONS = [
     "(they are global on the production grid)",
     "cap URLs are http(s) strings (anything else in a seed response is ignored by design)",
 ]
-MUST_REACH = {"proxy_only_caps_registered_by_a_request_hook": 30, "resolutions_checked": 2000, "name_lookups_checked": 1000, "temporary_caps_consumed": 50,
+MUST_REACH = {"simulator_grants_under_a_proxy_only_name": 20, "proxy_only_caps_registered_by_a_request_hook": 30, "resolutions_checked": 2000, "name_lookups_checked": 1000, "temporary_caps_consumed": 50,
               "seed_flows": 100, "proxy_only_stripped": 30, "wrapper_caps_checked": 30, "proxy_cap_reregistrations": 30,
               "prefix_related_resolutions": 50, "regranted_names": 30, "old_urls_regranted": 20, "name_lookups_after_consumption_with_survivors": 10, "wrapper_redirects_checked": 30,
               "regions_reannounced": 50, "old_seeds_regranted": 10, "regions_registered_without_seed": 10,
@@ -308,6 +308,13 @@ def seed_flow(ctx, rng, rig, m, regions, sessions, wit):
                 # on the main grid the asset capabilities are the same CDN URL for every region and every avatar
                 granted[n] = f"http://asset-cdn.example.invalid/cap/{n.lower()}"
                 ctx.count("grid_wide_asset_urls_granted")
+    if proxy_only_names and rng.random() < 0.2:
+        # overlapping names: the simulator grants (unasked) a capability under a name an addon registered as proxy-only. The
+        # registration stands - the name is still the proxy's to answer and is still kept out of later requests upstream
+        pn = rng.choice(proxy_only_names)
+        if pn not in granted:
+            granted[pn] = rand_url(rng, regions)
+            ctx.count("simulator_grants_under_a_proxy_only_name")
     if rng.random() < 0.1:
         granted["NotAUrl"] = 5
     # the mitmproxy side keeps its own flow object, updated from the callback state (cap data in serialized form)
